@@ -175,6 +175,17 @@ def run_case(job):
         res['replays'] += 1
         return rc.call(hname, params, spec.enc(inp_c))
 
+    if hasattr(h, 'decide'):
+        # engines other than S (LR-BMC, ...) decide the case themselves and use the common replay / reporting
+        try:
+            r = h.decide(env, params, tier, lambda inp_c: rc.call(hname, params, spec.enc(inp_c)), deadline)
+        except Exception as ex:
+            r = dict(res, harness_error=''.join(traceback.format_exception(type(ex), ex, ex.__traceback__))[-3000:])
+        r.setdefault('wall', round(time.time() - t0, 2))
+        r.update(harness=hname, params=params)
+        r.setdefault('unmodelled_calls', {})
+        return r
+
     def one(e):
         inp = h.build(e, params)
         e.inputs = inp
